@@ -8,7 +8,7 @@ from __future__ import annotations
 from fractions import Fraction
 
 import sympy
-from sympy import S, Abs, Add, Derivative, Float, Max, Min, Mul, Pow, Rational, cos, exp, log, oo, nan, sin, sqrt, zoo
+from sympy import S, Abs, Add, Derivative, Float, Integer, Max, Min, Mul, Pow, Rational, cos, exp, log, oo, nan, sin, sqrt, zoo
 from sympy.physics import units
 from sympy.physics.units import Quantity as SymQuantity
 from sympy.physics.units.prefixes import Prefix
@@ -137,6 +137,11 @@ class Gen:
             return cls(*terms, evaluate=False)
         if all(x == 0 for x in vec) and not self.opaque_used:
             self.opaque_used = True
+            if rng.random() < 0.3:
+                # a function of two arguments (one of them possibly dimensional in the malformed stream)
+                a1 = self.expr(self.other_vec(ZERO) if rng.random() < self.p_bad else ZERO, 0)
+                a2 = self.expr(self.other_vec(ZERO) if rng.random() < self.p_bad else ZERO, depth - 1)
+                return sympy.besselj(a1, a2) if rng.random() < 0.5 else sympy.atan2(a1, a2, evaluate=False)
             f = rng.choice([sin, cos, exp, log])
             if rng.random() < 0.3 and not rng.random() < self.p_bad:
                 return f(reduced_dimensionless(rng, rng.choice([1, 2, 3])))
@@ -235,6 +240,18 @@ def boundary(rng, k=None):
         lambda: Quantity(9 * m)**reduced_dimensionless(rng, 2),
         lambda: exp(reduced_dimensionless(rng, 1)) * units.second,
         lambda: Quantity(sympy.zoo) * units.meter,
+        # exact magnitudes outside the range of a double are finite and non-zero: not "any dimension"
+        lambda: Add(Quantity(Rational(1, 10**400) * m), Quantity(1 * s), evaluate=False),
+        lambda: Add(Quantity(Integer(10)**400 * m), Quantity(1 * s), evaluate=False),
+        lambda: Mul(Quantity(Rational(1, 10**200) * m), Quantity(Rational(1, 10**200) * m), evaluate=False),
+        lambda: sin(Quantity(Rational(1, 10**400) * m)),
+        lambda: Quantity(Integer(10)**400 * m) + Quantity(3 * m),
+        # functions of several arguments: EVERY argument must be of any dimension or dimensionless
+        lambda: sympy.besselj(0, Quantity(3 * m)),
+        lambda: sympy.besselj(Quantity(2), Quantity(3 * units.joule) / Quantity(1 * units.newton * m)),
+        lambda: sympy.atan2(Quantity(0 * m), Quantity(2 * s), evaluate=False),
+        lambda: sympy.atan2(Quantity(2), Quantity(0 * s), evaluate=False),
+        lambda: 1 + sympy.besselj(2, Quantity(3 * m) / 2)**2,
         # a factor of any dimension does not excuse the factors after it
         lambda: Mul(zs, sin(Quantity(1 * m)), evaluate=False),
         lambda: Mul(z, sympy.Symbol("free_x"), evaluate=False),
